@@ -75,11 +75,13 @@ theorem float_and_complex_stay :
 example : (⟨.f, 2⟩ : Dtype) ∈ scope ∧ ((⟨.f, 2⟩ : Dtype).kind = .f ∨ (⟨.f, 2⟩ : Dtype).kind = .c) := by decide
 
 /-- verdict of the reference on one (route, dtype, scalar/array) cell.  `to_value` on a quantity
-    hands back a Python float (binary64): acceptable when the expected float type fits in it. -/
+    hands back a Python float / complex (binary64 components): acceptable when the expected type
+    fits in it. -/
 def verdict (r : Route) (d : Dtype) (q : Bool) : Bool :=
   if r == .toValue && q then
     match toValueOut N P d true with
     | .ok .pyfloat => (expectedDtype d).kind == .f && (expectedDtype d).size ≤ 8
+    | .ok .pycomplex => (expectedDtype d).kind == .c && (expectedDtype d).size ≤ 16
     | .ok (.ndarray _) => false
     | .error _ => mayRaise d
   else acceptable d (routeDtype N P r d q)
@@ -100,10 +102,12 @@ theorem route_dtype_excluded_is_tight :
 
 example : Route.to ∈ Route.all ∧ (⟨.i, 4⟩ : Dtype) ∈ scope ∧ knownExcluded .to ⟨.i, 4⟩ false = false := by decide
 
-/-- `in_base` on int32 returns float64 while `convert_to_base` makes the same data float32 -/
-theorem in_base_counterexample :
-    eqOut (routeDtype N P .inBase ⟨.i, 4⟩ false) (.ok ⟨.f, 8⟩) = true
-    ∧ eqOut (routeDtype N P .convertToBase ⟨.i, 4⟩ false) (.ok ⟨.f, 4⟩) = true := by
+/-- `in_base` (`in_cgs`, `in_mks`) follows the same rule as `to`: integers become the float of the
+    same item size, and it agrees with `convert_to_base` wherever that returns -/
+theorem in_base_route_dtype :
+    ∀ d ∈ scope, ∀ q : Bool, eqOut (routeDtype N P .inBase d q) (.ok (expectedDtype d)) = true
+      ∧ (eqOut (routeDtype N P .convertToBase d q) (routeDtype N P .inBase d q)
+          || (mayRaise d && eqOut (routeDtype N P .convertToBase d q) (.error .ValueError))) = true := by
   decide +kernel
 
 /-- `to_equivalent` across dimensions returns float64 for float32 data while
@@ -113,17 +117,21 @@ theorem to_equivalent_counterexample :
     ∧ eqOut (routeDtype N P .convertToEquivalent ⟨.f, 4⟩ false) (.ok ⟨.f, 4⟩) = true := by
   decide +kernel
 
-/-- `to_value` on a complex128 quantity raises TypeError; on a complex256 quantity it returns a
-    Python float (imaginary part gone); on a long-double quantity a Python float (64 → 53 bits) -/
+/-- `to_value` on a complex64/complex128 quantity hands back the Python complex (nothing is lost) -/
+theorem to_value_complex_quantity :
+    toValueOut N P ⟨.c, 8⟩ true = .ok .pycomplex ∧ toValueOut N P ⟨.c, 16⟩ true = .ok .pycomplex
+    ∧ verdict .toValue ⟨.c, 8⟩ true = true ∧ verdict .toValue ⟨.c, 16⟩ true = true := by
+  decide +kernel
+
+/-- what remains: a Python scalar cannot hold extended precision (64 → 53 bits per component) -/
 theorem to_value_quantity_counterexample :
-    toValueOut N P ⟨.c, 16⟩ true = .error .TypeError
-    ∧ toValueOut N P ⟨.c, 32⟩ true = .ok .pyfloat
+    toValueOut N P ⟨.c, 32⟩ true = .ok .pycomplex
     ∧ toValueOut N P ⟨.f, 16⟩ true = .ok .pyfloat := by
   decide +kernel
 
 theorem dtype_counterexample : ¬ C17_dtype_full := by
   intro h
-  have := h .inBase (by decide) ⟨.i, 4⟩ (by decide +kernel) false
+  have := h .toEquivalent (by decide) ⟨.f, 4⟩ (by decide +kernel) false
   revert this
   decide +kernel
 
@@ -133,42 +141,40 @@ theorem dtype_counterexample : ¬ C17_dtype_full := by
 def C17_binary_full : Prop :=
   ∀ d1 ∈ scope, acceptable d1 (binaryOperandDtype N P d1) = true
 
-/-- for every integer, unsigned and float dtype the second operand is converted in the float
-    type of its own item size, or the call raises (TypeError `'f1'`) exactly for 1-byte integers -/
-theorem binary_operand_dtype_partial :
-    ∀ d1 ∈ scope, d1.kind ≠ .c →
+/-- for **every** integer, unsigned, float and complex dtype the second operand is converted in the
+    type the reference requires — the float of its own item size for integers, its own dtype for
+    floats and complex — or the call raises (TypeError `'f1'`) exactly for 1-byte integers -/
+theorem binary_operand_dtype :
+    ∀ d1 ∈ scope,
       eqOut (binaryOperandDtype N P d1)
         (if mayRaise d1 then .error .TypeError else .ok (expectedDtype d1)) = true := by
   decide +kernel
 
-example : (⟨.u, 2⟩ : Dtype) ∈ scope ∧ (⟨.u, 2⟩ : Dtype).kind ≠ .c := by decide
-
-/-- a complex second operand is converted to a *real* float type of its item size (complex64 →
-    float64, complex128 → float128: the imaginary part is discarded), complex256 raises -/
-theorem binary_operand_counterexample :
-    eqOut (binaryOperandDtype N P ⟨.c, 8⟩) (.ok ⟨.f, 8⟩) = true
-    ∧ eqOut (binaryOperandDtype N P ⟨.c, 16⟩) (.ok ⟨.f, 16⟩) = true
-    ∧ eqOut (binaryOperandDtype N P ⟨.c, 32⟩) (.error .TypeError) = true := by
+/-- hence the full statement -/
+theorem binary_full : C17_binary_full := by
+  unfold C17_binary_full
   decide +kernel
 
-theorem binary_counterexample : ¬ C17_binary_full := by
-  intro h
-  have := h ⟨.c, 16⟩ (by decide +kernel)
-  revert this
+/-- a complex second operand stays complex (complex64, complex128, complex256) -/
+theorem binary_operand_complex_stays :
+    eqOut (binaryOperandDtype N P ⟨.c, 8⟩) (.ok ⟨.c, 8⟩) = true
+    ∧ eqOut (binaryOperandDtype N P ⟨.c, 16⟩) (.ok ⟨.c, 16⟩) = true
+    ∧ eqOut (binaryOperandDtype N P ⟨.c, 32⟩) (.ok ⟨.c, 32⟩) = true := by
   decide +kernel
 
 /-- the result of a mixed-unit binary ufunc is never integer-typed: for every first-operand dtype
-    and every non-complex second operand that is not a 1-byte integer, the call returns float or
-    complex data whose components are at least as wide as the converted operand -/
+    and every second operand that is not a 1-byte integer, the call returns float or complex data
+    whose components are at least as wide as the converted operand's, complex exactly when one of the
+    operands is -/
 theorem binary_result_never_integer :
-    ∀ d0 ∈ scope, ∀ d1 ∈ scope, d1.kind ≠ .c → mayRaise d1 = false →
+    ∀ d0 ∈ scope, ∀ d1 ∈ scope, mayRaise d1 = false →
       (match binaryResultDtype N P d0 d1 true false with
-       | .ok r => (r.kind == .f || r.kind == .c) && decide (max 2 d1.size ≤ r.compSize)
-                    && (r.kind == .c) == (d0.kind == .c)
+       | .ok r => (r.kind == .f || r.kind == .c) && decide (max 2 d1.compSize ≤ r.compSize)
+                    && (r.kind == .c) == (d0.kind == .c || d1.kind == .c)
        | .error _ => false) = true := by
   decide +kernel
 
-example : (⟨.i, 2⟩ : Dtype) ∈ scope ∧ (⟨.i, 2⟩ : Dtype).kind ≠ .c ∧ mayRaise ⟨.i, 2⟩ = false := by decide
+example : (⟨.i, 2⟩ : Dtype) ∈ scope ∧ mayRaise ⟨.i, 2⟩ = false := by decide
 
 /-- an integer `out=` buffer is promoted to the float of its item size (TypeError for 1-byte
     items), any other buffer is left alone -/
@@ -236,11 +242,11 @@ theorem complex_stays_complex_value (ofInt : Int → K) (c : Dtype) (hc : c.kind
     ∧ inplaceValue (exactOps K ofInt) c (.cplx re im) f none = .cplx (re * f) (im * f) := by
   simp [copyValue, inplaceValue, castElem, mulIn, offsetTruthy, exactOps, hc]
 
-/-- value-level counterexample for the binary route: the converted second operand does not
-    depend on the imaginary part of a complex input — it is silently dropped -/
-theorem binary_operand_drops_imaginary (new : Dtype) (hn : new.kind ≠ .c) (re im im' f : K) :
-    binaryOperandValue A new (.cplx re im) f = binaryOperandValue A new (.cplx re im') f := by
-  simp [binaryOperandValue, castElem, mulIn, hn]
+/-- the binary route on a complex second operand (converted in its own complex dtype): both
+    components are scaled, the imaginary part survives -/
+theorem binary_operand_keeps_imaginary (ofInt : Int → K) (c : Dtype) (hc : c.kind = .c) (re im f : K) :
+    binaryOperandValue (exactOps K ofInt) c (.cplx re im) f = .cplx (re * f) (im * f) := by
+  simp [binaryOperandValue, castElem, mulIn, exactOps, hc]
 
 end values
 
@@ -266,14 +272,15 @@ def C17_warn_full : Prop :=
   ∀ r ∈ Route.all, ∀ d ∈ scope, d.isInt = true → ∀ q : Bool, ∀ t, routeDtype N P r d q = .ok t →
     ∀ v : Int, tooLarge t.size v = true → routeWarns P r d [v] = true
 
-/-- copy and in-place routes, 32- and 64-bit integers, **every** integer value: if the value is
-    too large for the float of the same item size — except exactly ±(2^24+1), ±(2^53+1) — the
-    warning fires -/
-theorem warn_partial :
+/-- `to`/`in_units`/`to_value`, `convert_to_units`/`convert_to_base` and `in_base`, 32- and 64-bit
+    integers, **every** integer value: if the value is too large for the float of the same item
+    size, the warning fires -/
+theorem warn_large_integers :
     ∀ d ∈ scope, d.isInt = true → (d.size = 4 ∨ d.size = 8) → ∀ v : Int,
-      tooLarge d.size v = true → v.natAbs ≠ 2 ^ precision d.size + 1 →
-        inUnitsWarns P d [v] = true ∧ convertToUnitsWarns P d [v] = true := by
-  intro d hd hint hsz v hv hne
+      tooLarge d.size v = true →
+        inUnitsWarns P d [v] = true ∧ convertToUnitsWarns P d [v] = true
+        ∧ routeWarns P .inBase d [v] = true := by
+  intro d hd hint hsz v hv
   have hk : P.copyIntKinds.contains d.kind = true ∧ P.inplaceIntKinds.contains d.kind = true := by
     have hor : d.kind = .i ∨ d.kind = .u := by
       unfold Dtype.isInt at hint; revert hint; cases d.kind <;> simp
@@ -281,37 +288,40 @@ theorem warn_partial :
   have hex : exactIn (precision d.size) v.natAbs = false := by
     unfold tooLarge at hv
     simpa using hv
+  have hs : P.largeStrict = false := by decide
+  have hib : P.inBaseItemSize = true := by decide
   rcases hsz with h4 | h8
   · have hL : P.largeInput.lookup d.size = some (2 ^ precision d.size + 1) := by rw [h4]; decide +kernel
-    have hw := C17L.largeWarns_of_inexact P d.size (precision d.size) (by rw [h4]; decide) hL d v hex hne
+    have hw := C17L.largeWarns_of_inexact P d.size (precision d.size) (by rw [h4]; decide) hs hL d v hex
     have hm : max P.copyMinSize d.size = d.size := by rw [h4]; decide
     have hr : (d.size != P.inplaceRefuseSize) = true := by rw [h4]; decide
-    simp only [inUnitsWarns, convertToUnitsWarns, hk.1, hk.2, hm, hr, hw, Bool.and_self, and_self]
+    simp only [routeWarns, inUnitsWarns, convertToUnitsWarns, hk.1, hk.2, hm, hr, hw, hib, Bool.and_self, and_self]
   · have hL : P.largeInput.lookup d.size = some (2 ^ precision d.size + 1) := by rw [h8]; decide +kernel
-    have hw := C17L.largeWarns_of_inexact P d.size (precision d.size) (by rw [h8]; decide) hL d v hex hne
+    have hw := C17L.largeWarns_of_inexact P d.size (precision d.size) (by rw [h8]; decide) hs hL d v hex
     have hm : max P.copyMinSize d.size = d.size := by rw [h8]; decide
     have hr : (d.size != P.inplaceRefuseSize) = true := by rw [h8]; decide
-    simp only [inUnitsWarns, convertToUnitsWarns, hk.1, hk.2, hm, hr, hw, Bool.and_self, and_self]
+    simp only [routeWarns, inUnitsWarns, convertToUnitsWarns, hk.1, hk.2, hm, hr, hw, hib, Bool.and_self, and_self]
 
-example : (⟨.i, 4⟩ : Dtype) ∈ scope ∧ tooLarge 4 16777219 = true ∧ (16777219 : Int).natAbs ≠ 2 ^ precision 4 + 1 := by
+example : (⟨.i, 4⟩ : Dtype) ∈ scope ∧ tooLarge 4 16777217 = true := by
   decide +kernel
 
-/-- no spurious warning: the test fires only for magnitudes above the threshold -/
+/-- no spurious warning: the test fires only for magnitudes above `2^p` -/
 theorem warn_only_when_large :
     ∀ d : Dtype, (d.size = 4 ∨ d.size = 8) → ∀ v : Int,
-      inUnitsWarns P d [v] = true → 2 ^ precision d.size + 1 < v.natAbs := by
+      inUnitsWarns P d [v] = true → 2 ^ precision d.size < v.natAbs := by
   intro d hsz v h
   unfold inUnitsWarns at h
   have h2 : largeWarns P (max P.copyMinSize d.size) d [v] = true := by
     revert h; cases P.copyIntKinds.contains d.kind <;> simp
+  have hs : P.largeStrict = false := by decide
   rcases hsz with h4 | h8
   · have hm : max P.copyMinSize d.size = 4 := by rw [h4]; decide
     rw [hm] at h2
-    have := C17L.gt_of_largeWarns P 4 (2 ^ 24 + 1) (by decide +kernel) d v h2
+    have := C17L.ge_of_largeWarns P 4 (2 ^ 24 + 1) hs (by decide +kernel) d v h2
     rw [h4]; exact this
   · have hm : max P.copyMinSize d.size = 8 := by rw [h8]; decide
     rw [hm] at h2
-    have := C17L.gt_of_largeWarns P 8 (2 ^ 53 + 1) (by decide +kernel) d v h2
+    have := C17L.ge_of_largeWarns P 8 (2 ^ 53 + 1) hs (by decide +kernel) d v h2
     rw [h8]; exact this
 
 /-- small integers need no warning: every 8-bit value fits binary16 -/
@@ -321,27 +331,29 @@ theorem one_byte_integers_fit : ∀ v : Int, v.natAbs ≤ 256 → tooLarge 2 v =
   have := C17L.exactIn_of_le (precision 2) v.natAbs (by decide) (Nat.le_trans hv (by decide))
   simp [this]
 
-/-- the documented threshold is off by one: 2^24 + 1 does not fit binary32 (it becomes 2^24), and
-    neither route warns -/
-theorem warn_counterexample_threshold :
+/-- the documented first casualties themselves warn: 2^24 + 1 (it becomes 2^24 in binary32) and
+    2^53 + 1, on every route that has the test -/
+theorem warn_at_documented_threshold :
     tooLarge 4 16777217 = true
-    ∧ inUnitsWarns P ⟨.i, 4⟩ [16777217] = false ∧ convertToUnitsWarns P ⟨.i, 4⟩ [16777217] = false
+    ∧ inUnitsWarns P ⟨.i, 4⟩ [16777217] = true ∧ convertToUnitsWarns P ⟨.i, 4⟩ [16777217] = true
+    ∧ routeWarns P .inBase ⟨.u, 4⟩ [16777217] = true
     ∧ tooLarge 8 9007199254740993 = true
-    ∧ inUnitsWarns P ⟨.i, 8⟩ [9007199254740993] = false
-    ∧ convertToUnitsWarns P ⟨.u, 8⟩ [9007199254740993] = false := by
+    ∧ inUnitsWarns P ⟨.i, 8⟩ [9007199254740993] = true
+    ∧ convertToUnitsWarns P ⟨.u, 8⟩ [9007199254740993] = true
+    ∧ routeWarns P .inBase ⟨.i, 8⟩ [-9007199254740993] = true := by
   decide +kernel
 
 /-- 16-bit integers have no LARGE_INPUT entry: 2049 does not fit binary16, nothing warns -/
 theorem warn_counterexample_16bit :
     tooLarge 2 2049 = true
-    ∧ inUnitsWarns P ⟨.i, 2⟩ [2049] = false ∧ convertToUnitsWarns P ⟨.u, 2⟩ [2049] = false := by
+    ∧ inUnitsWarns P ⟨.i, 2⟩ [2049] = false ∧ convertToUnitsWarns P ⟨.u, 2⟩ [2049] = false
+    ∧ routeWarns P .inBase ⟨.i, 2⟩ [2049] = false := by
   decide +kernel
 
-/-- `in_base` and the equivalence routes contain no test at all -/
-theorem warn_counterexample_in_base :
-    eqOut (routeDtype N P .inBase ⟨.i, 8⟩ false) (.ok ⟨.f, 8⟩) = true
+/-- the equivalence routes contain no test at all -/
+theorem warn_counterexample_equivalence :
+    eqOut (routeDtype N P .toEquivalent ⟨.i, 8⟩ false) (.ok ⟨.f, 8⟩) = true
     ∧ tooLarge 8 9007199254740995 = true
-    ∧ routeWarns P .inBase ⟨.i, 8⟩ [9007199254740995] = false
     ∧ routeWarns P .toEquivalent ⟨.i, 8⟩ [9007199254740995] = false
     ∧ routeWarns P .convertToEquivalent ⟨.i, 8⟩ [9007199254740995] = false := by
   decide +kernel
